@@ -407,6 +407,12 @@ pub fn parse<'a>(
 ) -> ParseResult<'a, Option<CommandCall<'a>>> {
     // Skip optional whitespace
     let (input, _) = optional(whitespace)(input)?;
+
+    // Nothing but white space so far: the unit it belongs to has not arrived yet.
+    if input.is_empty() {
+        return Err(ParseError::Incomplete);
+    }
+
     let (input, _terminator) = optional(tag(b'\n'))(input)?;
 
     if _terminator.is_some() {
